@@ -306,7 +306,8 @@ def check(model: Model, run: Run) -> None:
         model.cls(q)
         if model.find_method(q, "receive") is None:
             raise AnalysisError(f"{q}.receive not found")
-    base_fi = model.find_method(BASE, "receive")
+    from ..readerrules import receive_anchor
+    base_fi = receive_anchor(model)          # the method with the decode phase: receive itself, or what a template-method receive hands over to
     base_esc = escape_set_rule(model, run, ex, mr, "X1-escape-set")
     reach = {k[0] for k in mr.summ}
     # sample of discharged implicit sites for the evidence
